@@ -7,6 +7,24 @@ TRUST = "Trusted base: the harness oracles in monitor/src (self-tested by setup.
 
 CHECKS = {
  # id: (technique, level text, design ref, level note)
+ "C01": ("seeded expression-tree workload on Dual; every node compared with an independent name-keyed reference AD inside a stochastic-rounding noise band",
+         "Runtime oracle over 10^4..10^6 generated expression trees covering every (operator x operand form x ownership x variable-list relationship) class, checked at every intermediate node. Held-on-observed, not a proof: reach is depth<=7, <=6 variables.",
+         "DESIGN.md 3/C01", TRUST),
+ "C02": ("the C01 tree workload on Dual2 with full-Hessian reference AD, plus gradient2 read-back, symmetry, down-conversion and Dual/Dual2 cross-type checks",
+         "Runtime oracle over generated trees: value, gradient and every Hessian entry of every node against reference AD within a measured noise band; bit-exact down-conversion.",
+         "DESIGN.md 3/C02", TRUST),
+ "C03": ("complete enumeration of ordered variable-list pairs x storage modes x operators with a canonical-layout and reference-AD oracle",
+         "Exhaustive over the layout space of a 4-name (quick) / 5-name (thorough) pool: every ordered list pair, shared/unshared/zero-padded storage, + - * / % and ==, Dual and Dual2; coefficient values are sampled.",
+         "DESIGN.md 3/C03", TRUST),
+ "C17": ("complete enumeration of stored-list x requested-list pairs with a name-keyed lookup oracle; manifold product rule against reference AD",
+         "Exhaustive over (stored list, requested list) on a small pool for gradient1/gradient2/gradient1_manifold (exact comparison), sampled for the product-rule identity.",
+         "DESIGN.md 3/C17", TRUST),
+ "C18": ("full conversion table and Number operator table, each cell compared bit-for-bit with the operation on the contained types; refusal observed with catch_unwind",
+         "Every cell of the (kind x order) conversion table, every From impl and every (operator x kind pairing x ownership) cell of the Number container on sampled values.",
+         "DESIGN.md 3/C18", TRUST + " The contained-type operations are judged by C01/C02/C19."),
+ "C19": ("seeded boundary/random pairs on Dual, Dual2 and Number against float comparison, exact sign-flip / fold / identity oracles and reference-AD remainder",
+         "Runtime oracle over 10^5..10^6 generated pairs including negative values and divisors, equal values, +-0 and NaN (comparisons).",
+         "DESIGN.md 3/C19", TRUST),
  "C07": ("exhaustive sweep of 14 names x 84371 dates against an independent holiday-rules engine + fixing-file back-tests",
          "Exhaustive runtime comparison over the complete finite domain (every date 1970-2200 of every built-in calendar) with a hand-transcribed rule engine, plus the 9 shipped fixing histories. For the pinned tables the verdict is as strong as the transcription of the published rules.",
          "DESIGN.md 3/C07",
